@@ -797,6 +797,7 @@ type c09Run struct {
 	nontriv  atomic.Int64 // ... with a subject at distance >= 2
 	maxOver  atomic.Int64 // max(levels - eff) seen (engine convention: <= 0)
 	maxStmts atomic.Int64
+	faults   atomic.Int64
 	shape    map[string]int
 }
 
@@ -818,6 +819,10 @@ func (r *c09Run) runState(w *c09World, family string, ts []*ketoapi.RelationTupl
 	}
 	if far {
 		r.nontriv.Add(1)
+	}
+	if len(ts) <= 3 && family == "small" && r.states.Load()%8 == 0 || family != "small" && len(ts) <= 120 {
+		// (every 8th small state and the small fan-out / empty cases: the pass multiplies the state's cost by its statement count)
+		defer r.faultPass(w, family, ts, root, depths[len(depths)-1], transports)
 	}
 	checked := map[string]apih.Resp{}
 	for _, d := range depths {
@@ -864,6 +869,34 @@ func (r *c09Run) runState(w *c09World, family string, ts []*ketoapi.RelationTupl
 						r.mu.Unlock()
 					}
 				}
+			}
+		}
+	}
+}
+
+// faultPass: every SQL statement of an expand fails in turn (statement k of the fault-free run is
+// refused by the driver): the answer must be an error or exactly the fault-free tree - a storage
+// failure must never be reported as a (smaller) successful picture of the subject set.
+func (r *c09Run) faultPass(w *c09World, family string, ts []*ketoapi.RelationTuple, root *ketoapi.SubjectSet, d c09Depth, transports []string) {
+	names := w.names()
+	for _, tr := range transports {
+		base := w.expand(tr, root, d, names, 1<<30)
+		if base.Err != "" || base.Horizon {
+			continue
+		}
+		want := base.Tree.String()
+		for k := 1; k <= base.Stmts; k++ {
+			res := w.expand(tr, root, d, names, k-1) // statement k is refused
+			r.faults.Add(1)
+			if !res.Horizon {
+				continue // fewer statements than expected this time: nothing was injected
+			}
+			got := res.Tree.String()
+			if res.Err == "" && (res.Absent != base.Absent || got != want) {
+				f := c09Finding{"storage-failure-reported-as-success", fmt.Sprintf("expand(%s) with SQL statement %d of %d failing answers successfully with a different tree: got %s (absent=%v), fault-free %s", tr, k, base.Stmts, got, res.Absent, want)}
+				r.mu.Lock()
+				r.cands = append(r.cands, c09Cand{Case: c09Case{family, ts, root, d, tr, nil}, F: f, Tree: got})
+				r.mu.Unlock()
 			}
 		}
 	}
@@ -1218,6 +1251,7 @@ func TestC09(t *testing.T) {
 	r.mu.Unlock()
 	run.Finish(map[string]any{
 		"evaluations":                int(r.expands.Load()),
+		"statement_faults_injected":  int(r.faults.Load()),
 		"distinct_nontrivial":        int(r.nontriv.Load()),
 		"rule":                       "evaluations = expand calls (stored state x depth combination x path); a stored state = (tuple multiset up to renaming, sibling row order) and is non-trivial iff some subject is at distance >= 2 from the requested set (a nested set must be expanded); distinct_nontrivial counts distinct non-trivial stored states",
 		"exhaustive":                 !timedOut.Load() && unstable == 0,
